@@ -196,6 +196,16 @@ structure XNode where
   kids : List String := []
 deriving Repr, DecidableEq
 
+/-- attributes are observed as a set: the model reports them sorted by name (insertion sort), so that a
+    reordering of dict literals / keyword arguments in the source moves nothing the theorems talk about -/
+def insAttr (p : String × Str) : List (String × Str) → List (String × Str)
+  | [] => [p]
+  | q :: r => if p.1 < q.1 then p :: q :: r else q :: insAttr p r
+
+def sortAttrs : List (String × Str) → List (String × Str)
+  | [] => []
+  | p :: r => insAttr p (sortAttrs r)
+
 /-- Python `d[k] = v` on an insertion-ordered dict -/
 def dictSet (d : List (String × Str)) (k : String) (v : Str) : List (String × Str) :=
   if d.any (fun p => p.1 = k) then d.map (fun p => if p.1 = k then (k, v) else p) else d ++ [(k, v)]
@@ -207,7 +217,7 @@ def buildAttrs (e : Env) (sub : Str → Str) : List (String × Str) → List (EB
 /-- `EntityDeclaration.xml_instance`, `e` = the `parameters` dict -/
 def instanceNodeE (e : Env) : XNode :=
   { tag := Gen.entityInstanceTag
-    attrs := buildAttrs e id [] Gen.entityInstanceAttrs
+    attrs := sortAttrs (buildAttrs e id [] Gen.entityInstanceAttrs)
     kids := (Gen.entityInstanceKids.filter fun p => evalB e p.1).map (·.2) }
 
 def instanceNode (ps : Params) : XNode := instanceNodeE (paramEnv ps)
@@ -215,7 +225,7 @@ def instanceNode (ps : Params) : XNode := instanceNodeE (paramEnv ps)
 /-- one of the `_get_*_node` helpers: `node(tag, refAttr=self.get_xpath() + suffix, **attrs)` -/
 def mkNode (xpath : Str) (sub : Str → Str) (t : ENodeT) (expr : Option Str) (dest : Str) : XNode :=
   let e : Env := { val := fun n => if n = "expression" then expr else if n = "destination" then some dest else none }
-  { tag := t.tag, attrs := (t.refAttr, xpath ++ evalP e sub t.refSuffix) :: buildAttrs e sub [] t.attrs }
+  { tag := t.tag, attrs := sortAttrs ((t.refAttr, xpath ++ evalP e sub t.refSuffix) :: buildAttrs e sub [] t.attrs) }
 
 def bindingsGo (xpath : Str) (sub : Str → Str) (e : Env) : List (EB × ECall) → Except Rej (List XNode)
   | [] => .ok []
@@ -255,6 +265,9 @@ def savetoEnv (decl : Bool) (n : Nat) (st : List Frame) (r : Cells) (t : Str) : 
       else if k = "in_repeat" then flag (inRepeat st)
       else if k = "entity_declaration" then flag decl
       else if k = "row_number" then some (Rows.natToStr n)
+      -- not read by the pinned source; provided so that the candidate repair of F25 (fixes/F25.diff: the caller
+      -- passes `is_section=begin_control_parse is not None`) is interpreted faithfully as well
+      else if k = "is_section" then flag (Rows.matchControl "begin" true t).isSome
       else none }
 
 def pathOf (root : Str) (st : List Frame) (name : Str) : Str :=
